@@ -3,6 +3,7 @@ package mboxprop
 import (
 	"bytes"
 	"fmt"
+	"strings"
 	"testing"
 
 	"github.com/lightninglabs/lightning-node-connect/mailbox"
@@ -246,6 +247,68 @@ func TestC19MsgDataHistory(t *testing.T) {
 		rec.Case(true, fmt.Sprintf("%v/%d", vers, len(pls[0])), "serialisations_kept_across_later_ones")
 		if rec.WantSample() {
 			rec.Sample(map[string]any{"versions": vers})
+		}
+	})
+	rec.Done()
+}
+
+// TestC19MsgDataReused: one MsgData value with a past: serialised, its Payload
+// assigned anew (same or another length), serialised again; also a value that
+// was filled by Deserialize first and one that Deserialize fills twice. What
+// the value holds at the moment of Serialize is what must come back.
+func TestC19MsgDataReused(t *testing.T) {
+	const unit = "TestC19MsgDataReused"
+	rec := stats.New(t, "C19", unit)
+	if stats.ReplayMode() {
+		t.Skip()
+	}
+	rapid.Check(t, func(rt *rapid.T) {
+		ver := rapid.Uint8().Draw(rt, "version")
+		m := mailbox.NewMsgData(ver, rapid.SliceOfN(rapid.Byte(), 0, 60).Draw(rt, "payload"))
+		var hist []string
+		steps := rapid.IntRange(2, 8).Draw(rt, "steps")
+		for i := 0; i < steps; i++ {
+			switch rapid.IntRange(0, 4).Draw(rt, "mutate") {
+			case 0:
+				np := make([]byte, len(m.Payload))
+				for j := range np {
+					np[j] = rapid.Byte().Draw(rt, "b")
+				}
+				m.Payload = np
+				hist = append(hist, "payload replaced, same length")
+			case 1:
+				m.Payload = rapid.SliceOfN(rapid.Byte(), 0, 60).Draw(rt, "payload2")
+				hist = append(hist, "payload replaced")
+			case 2:
+				// the value is (re)filled from the wire encoding of another
+				// message, as connKit.Read does with its receive buffer
+				v2 := rapid.Uint8().Draw(rt, "version2")
+				other, err := mailbox.NewMsgData(v2, rapid.SliceOfN(rapid.Byte(), 0, 60).Draw(rt, "payload3")).Serialize()
+				if err != nil {
+					rt.Fatalf("Serialize: %v", err)
+				}
+				if err := m.Deserialize(other); err != nil {
+					rt.Fatalf("Deserialize of a fresh serialisation: %v", err)
+				}
+				hist = append(hist, "filled by Deserialize")
+			default:
+				hist = append(hist, "unchanged")
+			}
+			wantV, wantP := m.ProtocolVersion(), append([]byte(nil), m.Payload...)
+			b, err := m.Serialize()
+			if err != nil {
+				rt.Fatalf("Serialize: %v", err)
+			}
+			got, derr, p := msgDataDeserialize(b)
+			if p != "" || derr != nil || got.ProtocolVersion() != wantV || !bytes.Equal(got.Payload, wantP) {
+				v := fmt.Sprintf("a MsgData value serialised for the %d. time (%s) holds version %d and %d payload bytes, but its serialisation decodes differently (err %v %s)", i+1, strings.Join(hist, "; "), wantV, len(wantP), derr, p)
+				rec.Pending(v, "reused", map[string]any{"history": hist})
+				rt.Fatalf("%s", v)
+			}
+		}
+		rec.Case(true, fmt.Sprintf("%v|%d", hist, ver), "value_reserialised_after_assignment")
+		if rec.WantSample() {
+			rec.Sample(map[string]any{"history": hist})
 		}
 	})
 	rec.Done()
